@@ -21,6 +21,7 @@ package keeper
 //@   ensures ok_fresh: err == nil ==> !received1(S0, ord, P, C, s)
 //@   ensures ok_received: err == nil && s + 1 < 18446744073709551616 ==> received1(store(ctx), ord, P, C, s)
 //@   ensures only_store: err == nil ==> world(ctx) == withKV(old(world(ctx)), k.storeService, store(ctx))
+//@   ensures stable: forall P2 string, C2 string, s2 uint64, o2 int :: err == nil && s + 1 < 18446744073709551616 && 0 <= s2 && s2 < 18446744073709551616 && received1(S0, o2, P2, C2, s2) ==> received1(store(ctx), o2, P2, C2, s2)
 
 //@ contract (*Keeper).RecvPacket
 //@   let P = packet.DestinationPort
